@@ -1,6 +1,8 @@
 import Mouette.Lemmas.CuttingThm
 import Mouette.Lemmas.CuttingPrune
 import Mouette.Lemmas.CuttingNested
+import Mouette.Lemmas.CuttingPruneFix
+import Mouette.Lemmas.CuttingEuler
 /-!
 # C16 — cutting along singularities (partial)
 
@@ -12,9 +14,16 @@ original vertex of the corner and `newOf o c = o.faces.flatten[c]` its vertex in
 face list has the shape of the input (`faces_in_bijection`), `newOf o c` is the entry `F'[i][j]` of the output face
 for the same `(i,j)` for which `F[i][j] = vertOf F c` (`faces_nested` restates the main clauses face by face).
 
+Round 2 adds: termination and fixpoint of the pruning (`prune_queue_empty`, `prune_fixpoint`), and the counting part of
+the Euler characteristic (`vertex_count`, `twin_sides_shared`, `edge_count_partial`, `euler_formula_partial`,
+`euler_characteristic_partial`, `euler_iff_vertex_count`, `euler_formula_of_report`).
+
 NOT proved (tree–cotree theorem; checked on every run by the oracle with `surface_stats`): the cut mesh is ONE
 component with ONE border loop and Euler characteristic 1; every singular vertex has a copy on that border; the cut
-graph is connected. The stages before pruning (shortest paths, Kruskal on paths, dual Dijkstra) are not modelled.
+graph is connected. For χ the missing step is named precisely before `euler_characteristic_partial`: that a spanning
+tree of uncut dual edges makes all `2·|uncut|` corner unions effective (V' = F + 2), and that sides of the cut mesh
+coincide only when glued (false for the one-edge slit, an open finding). The stages before pruning (shortest paths,
+Kruskal on paths, dual Dijkstra) are not modelled.
 -/
 namespace Mouette.Props.C16
 open Mouette Mouette.Cutting Mouette.UF
@@ -205,6 +214,149 @@ theorem stable_roots {nV : Nat} {F : List Face} {uncut : List (Nat × Nat)} {o :
   rw [List.getD_eq_getElem?_getD, List.getElem?_map, List.getElem?_range hc3]
   simp
 
+/-! ## Euler characteristic of the cut mesh (P1, partial) -/
+
+/-- Vertex count: the number of vertices of the cut mesh is the number of union-find classes of corners, i.e.
+`3F` minus the number of unions (two per uncut edge) that joined two distinct classes. -/
+theorem vertex_count {nV : Nat} {F : List Face} {uncut : List (Nat × Nat)} {o : Out}
+    (tri : AllTri F) (h : build nV F uncut = .ok o) :
+    ∃ ps, unionPairs (halfEdges F) (cornerFaces F) uncut = some ps ∧ ps.length = 2 * uncut.length ∧
+      o.pos.length + effCount (ufRange (3 * F.length)) ps = 3 * F.length := by
+  obtain ⟨ps, s1, fl⟩ := build_flat tri h
+  refine ⟨ps, fl.hps, unionPairs_length _ _ uncut ps fl.hps, ?_⟩
+  obtain ⟨inv0, he0, _⟩ := ufRange_spec (fun _ => ()) (3 * F.length)
+  have hb : ∀ q, q ∈ ps → q.1 < 3 * F.length ∧ q.2 < 3 * F.length := by
+    intro q hq; have := fl.pairs_vert q hq; exact ⟨this.1, this.2.1⟩
+  have := nComps_applyUnions (3 * F.length) ps _ inv0 he0 hb
+  rw [← fl.hs1, ufRange_nComps] at this
+  rw [fl.vertex_count]; exact this
+
+/-- Glued sides are shared: the two sides of every uncut interior edge (they start at the corners `t.1`, `t.2`)
+are one undirected edge of the cut mesh. There is one such pair per uncut edge. -/
+theorem twin_sides_shared {nV : Nat} {F : List Face} {uncut : List (Nat × Nat)} {o : Out}
+    (tri : AllTri F) (h : build nV F uncut = .ok o) :
+    ∀ ps, unionPairs (halfEdges F) (cornerFaces F) uncut = some ps →
+      (twins ps).length = uncut.length ∧
+      ∀ t, t ∈ twins ps → t.1 < 3 * F.length ∧ t.2 < 3 * F.length ∧ sideKey o t.1 = sideKey o t.2 := by
+  obtain ⟨ps0, s1, fl⟩ := build_flat tri h
+  intro ps hps
+  obtain ⟨hl, hall⟩ := twins_spec tri uncut ps hps
+  refine ⟨hl, ?_⟩
+  intro t ht
+  obtain ⟨p, q, hp, hq, rfl, n1, n2⟩ := hall t ht
+  have hps0 : ps0 = ps := by have := fl.hps; rw [hps] at this; exact (Option.some.inj this).symm
+  subst hps0
+  have g1 := uncut_edges_glued tri h ps0 hps p hp
+  have g2 := uncut_edges_glued tri h ps0 hps q hq
+  refine ⟨(fl.pairs_vert p hp).1, (fl.pairs_vert q hq).2.1, ?_⟩
+  unfold sideKey
+  simp only []
+  rw [n1, n2, g1, ← g2, ukey_swap]
+
+/-- Edge count (PARTIAL: under explicit hypotheses on the twin list and on the output): if no corner starts two
+glued sides (`hR`, `hdisj`: the uncut edges are pairwise distinct interior edges of a manifold input) and the ONLY
+coincidences between sides of the cut mesh are those twins (`sep`: every other side is a border side, met once),
+then the cut mesh has exactly `3F − |uncut|` edges.
+The hypothesis `sep` is needed: it fails for the one-edge slit (known finding `C16/slit-of-one-edge/closed`). -/
+theorem edge_count_partial {nV : Nat} {F : List Face} {uncut : List (Nat × Nat)} {o : Out}
+    (tri : AllTri F) (h : build nV F uncut = .ok o) (ps : List (Nat × Nat))
+    (hps : unionPairs (halfEdges F) (cornerFaces F) uncut = some ps)
+    (hR : ((twins ps).map Prod.snd).Nodup) (hdisj : ∀ t, t ∈ twins ps → t.1 ∉ (twins ps).map Prod.snd)
+    (sep : ∀ a b, a < 3 * F.length → b < 3 * F.length → sideKey o a = sideKey o b →
+      a = b ∨ (a, b) ∈ twins ps ∨ (b, a) ∈ twins ps) :
+    edgeCount o F.length + uncut.length = 3 * F.length := by
+  obtain ⟨hl, hall⟩ := twin_sides_shared tri h ps hps
+  have := card_image_twins (3 * F.length) (sideKey o) (twins ps)
+    (fun t ht => ⟨(hall t ht).1, (hall t ht).2.1⟩) (fun t ht => (hall t ht).2.2) hR hdisj sep
+  rw [hl] at this
+  exact this
+
+/-
+FULL STATEMENT (not proved):
+  theorem euler_characteristic_of_dual_tree : AllTri F → build nV F uncut = .ok o → F manifold →
+      (the uncut interior edges are pairwise distinct and, as dual edges, form a spanning tree of the faces:
+       |uncut| = |F| − 1 and the union-find over faces across them has one class) →
+      (o.pos.length : Int) − edgeCount o F.length + F.length = 1
+What is proved below replaces "spanning tree of the faces + manifold" by its three consequences that are used:
+  (all_effective) every one of the 2·|uncut| corner unions joins two distinct classes — this is the vertex-count
+                  statement `V' = 3F − 2|uncut| = F + 2`; it follows from the dual TREE (a cycle among the corner
+                  pairs would project to a closed walk without backtracking in the dual tree), not formalised;
+  (hR, hdisj)     no corner starts two glued sides (distinct interior edges of a manifold input);
+  (sep)           sides of the cut mesh coincide only when glued.
+-/
+/-- χ(cut mesh) = V' − E' + F = 1 when |uncut| = F − 1 — PARTIAL, see the comment above for the full statement and
+for what exactly the three hypotheses replace. -/
+theorem euler_characteristic_partial {nV : Nat} {F : List Face} {uncut : List (Nat × Nat)} {o : Out}
+    (tri : AllTri F) (h : build nV F uncut = .ok o) (ps : List (Nat × Nat))
+    (hps : unionPairs (halfEdges F) (cornerFaces F) uncut = some ps)
+    (tree_size : uncut.length + 1 = F.length)
+    (all_effective : effCount (ufRange (3 * F.length)) ps = ps.length)
+    (hR : ((twins ps).map Prod.snd).Nodup) (hdisj : ∀ t, t ∈ twins ps → t.1 ∉ (twins ps).map Prod.snd)
+    (sep : ∀ a b, a < 3 * F.length → b < 3 * F.length → sideKey o a = sideKey o b →
+      a = b ∨ (a, b) ∈ twins ps ∨ (b, a) ∈ twins ps) :
+    (o.pos.length : Int) - (edgeCount o F.length : Int) + (F.length : Int) = 1 := by
+  obtain ⟨ps', hps', hlen, hv⟩ := vertex_count tri h
+  have : ps' = ps := by rw [hps] at hps'; exact (Option.some.inj hps').symm
+  subst this
+  have he := edge_count_partial tri h ps' hps hR hdisj sep
+  rw [all_effective, hlen] at hv
+  omega
+
+/-- General form (also covers the real runs, where pruned leaves are "zipped" back and `uncut` is larger than a
+spanning tree): χ = F + |uncut| − (number of effective corner unions), under the same edge hypotheses. -/
+theorem euler_formula_partial {nV : Nat} {F : List Face} {uncut : List (Nat × Nat)} {o : Out}
+    (tri : AllTri F) (h : build nV F uncut = .ok o) (ps : List (Nat × Nat))
+    (hps : unionPairs (halfEdges F) (cornerFaces F) uncut = some ps)
+    (hR : ((twins ps).map Prod.snd).Nodup) (hdisj : ∀ t, t ∈ twins ps → t.1 ∉ (twins ps).map Prod.snd)
+    (sep : ∀ a b, a < 3 * F.length → b < 3 * F.length → sideKey o a = sideKey o b →
+      a = b ∨ (a, b) ∈ twins ps ∨ (b, a) ∈ twins ps) :
+    (o.pos.length : Int) - (edgeCount o F.length : Int) + (F.length : Int)
+      = (F.length : Int) + (uncut.length : Int) - (effCount (ufRange (3 * F.length)) ps : Int) := by
+  obtain ⟨ps', hps', hlen, hv⟩ := vertex_count tri h
+  have : ps' = ps := by rw [hps] at hps'; exact (Option.some.inj hps').symm
+  subst this
+  have he := edge_count_partial tri h ps' hps hR hdisj sep
+  omega
+
+/-- The same, from what the driver reports on every case (`eulerReport`: V', effective unions, |uncut| and the Boolean
+`edgeHyp` deciding the three edge hypotheses): when the flag is 1 the Euler characteristic of the model's output is
+`F + |uncut| − effective` — the harness compares this number with the χ it measures on the implementation's mesh. -/
+theorem euler_formula_of_report {nV : Nat} {F : List Face} {uncut : List (Nat × Nat)} {o : Out}
+    (tri : AllTri F) (h : build nV F uncut = .ok o) {V eff u : Nat}
+    (hrep : eulerReport F uncut o = some (V, eff, u, true)) :
+    V = o.pos.length ∧ u = uncut.length ∧
+    (V : Int) - (edgeCount o F.length : Int) + (F.length : Int) = (F.length : Int) + (u : Int) - (eff : Int) := by
+  unfold eulerReport at hrep
+  split at hrep
+  · cases hrep
+  · rename_i ps hps
+    simp only [Option.some.injEq, Prod.mk.injEq] at hrep
+    obtain ⟨hV, heff, hu, hyp⟩ := hrep
+    obtain ⟨hR, hdisj, sep⟩ := edgeHyp_sound hyp
+    have := euler_formula_partial tri h ps hps hR hdisj sep
+    subst hV; subst heff; subst hu
+    exact ⟨rfl, rfl, this⟩
+
+/-- Reduction of χ = 1 to the vertex count alone: with the edge count in hand, χ = 1 is EQUIVALENT to
+`V' = F + 2`, i.e. to all corner unions being effective. -/
+theorem euler_iff_vertex_count {nV : Nat} {F : List Face} {uncut : List (Nat × Nat)} {o : Out}
+    (tri : AllTri F) (h : build nV F uncut = .ok o) (ps : List (Nat × Nat))
+    (hps : unionPairs (halfEdges F) (cornerFaces F) uncut = some ps)
+    (tree_size : uncut.length + 1 = F.length)
+    (hR : ((twins ps).map Prod.snd).Nodup) (hdisj : ∀ t, t ∈ twins ps → t.1 ∉ (twins ps).map Prod.snd)
+    (sep : ∀ a b, a < 3 * F.length → b < 3 * F.length → sideKey o a = sideKey o b →
+      a = b ∨ (a, b) ∈ twins ps ∨ (b, a) ∈ twins ps) :
+    ((o.pos.length : Int) - (edgeCount o F.length : Int) + (F.length : Int) = 1) ↔
+      effCount (ufRange (3 * F.length)) ps = ps.length := by
+  obtain ⟨ps', hps', hlen, hv⟩ := vertex_count tri h
+  have : ps' = ps := by rw [hps] at hps'; exact (Option.some.inj hps').symm
+  subst this
+  have he := edge_count_partial tri h ps' hps hR hdisj sep
+  have hle := effCount_le (ufRange (3 * F.length)) ps'
+  constructor
+  · intro hchi; omega
+  · intro hall; rw [hall, hlen] at hv; omega
+
 /-! ## pruning (P1) -/
 
 /-- Pruning never removes an edge of a sub-graph `K` of the cut graph all of whose leaves are singular:
@@ -233,6 +385,35 @@ theorem cutEdges0_mem (nE : Nat) (evisited : List Nat) (e : Nat) :
     e ∈ cutEdges0 nE evisited ↔ e < nE ∧ e ∉ evisited := by
   simp [cutEdges0]
 
+/-- The fuel of the model suffices: `_prune_edge_tree` ends with an empty queue (the flag `Q0` reported by the
+driver is always 0), for every cut set without repeated edge ids. -/
+theorem prune_queue_empty (nV : Nat) (E : List (Nat × Nat)) (cut sing : List Nat) (nd : cut.Nodup) :
+    (prune nV E cut sing).2 = [] := by
+  unfold prune
+  apply pruneLoop_queue_empty _ _ nd
+  have := pruneInit_length_le nV E cut sing
+  show cut.length + (pruneInit nV E cut sing).length < nV + cut.length + 1
+  omega
+
+/-- Fixpoint: after pruning no non-singular vertex of degree 1 is left in the cut graph. -/
+theorem prune_fixpoint (nV : Nat) (E : List (Nat × Nat)) (cut sing : List Nat) (nd : cut.Nodup) :
+    ∀ v, v < nV → v ∉ sing → degree E (prune nV E cut sing).1 v ≠ 1 := by
+  intro v hv hs hd
+  have hq := prune_queue_empty nV E cut sing nd
+  have inv := pruneLoop_leafQueued (nV := nV) (E := E) (sing := sing) (nV + cut.length + 1)
+    (cut, pruneInit nV E cut sing) nd (pruneInit_leafQueued nV E cut sing)
+  have hmem := inv v hv hs hd
+  unfold prune at hq
+  rw [hq] at hmem
+  simp at hmem
+
+/-- The same for the cut set the code starts from (`set(id_edges) - evisited`), whatever `evisited` is. -/
+theorem prune_fixpoint_run (nV nE : Nat) (E : List (Nat × Nat)) (evisited sing : List Nat) :
+    (prune nV E (cutEdges0 nE evisited) sing).2 = [] ∧
+    ∀ v, v < nV → v ∉ sing → degree E (prune nV E (cutEdges0 nE evisited) sing).1 v ≠ 1 :=
+  ⟨prune_queue_empty nV E _ sing (cutEdges0_nodup nE evisited),
+   prune_fixpoint nV E _ sing (cutEdges0_nodup nE evisited)⟩
+
 /-! ## non-vacuity -/
 
 /-- two triangles `[0,1,2],[0,2,3]` glued along the uncut edge `(0,2)` -/
@@ -245,6 +426,15 @@ example : (build 4 [[0, 1, 2], [0, 2, 3]] []).toOption.map (·.faces) = some [[0
 
 example : AllTri [[0, 1, 2], [0, 2, 3]] := by
   intro f hf; simp at hf; rcases hf with rfl | rfl <;> rfl
+
+/-- two triangles glued along `(0,2)`: one uncut edge = spanning tree of the two faces; both unions are effective,
+V' = 4, E' = 5, F = 2, χ = 1 (hypotheses of `euler_characteristic_partial` on a concrete case) -/
+example : unionPairs (halfEdges [[0, 1, 2], [0, 2, 3]]) (cornerFaces [[0, 1, 2], [0, 2, 3]]) [(0, 2)]
+    = some [(3, 0), (4, 2)] := by decide +kernel
+example : effCount (ufRange 6) [(3, 0), (4, 2)] = 2 := by decide +kernel
+example : twins [(3, 0), (4, 2)] = [(3, 2)] := rfl
+example : (build 4 [[0, 1, 2], [0, 2, 3]] [(0, 2)]).toOption.map (fun o => (o.pos.length, edgeCount o 2))
+    = some (4, 5) := by decide +kernel
 
 /-- a triangle loop `0-1-2` with a pendant path `2-3-4`: the path is pruned, the loop stays; with vertex 4
 singular everything stays. -/
